@@ -10,6 +10,7 @@ RETURN = {
 INIT = {
     "int": "1", "float": "1.5", "str": '"s"', "bool": "True", "none": "None", "name": "CONST", "call": "list()", "neg-int": "-1", "not-bool": "not True",
     "neg-name": "-CONST", "empty-tuple": "()", "tuple": "(1, 2)", "list": "[]", "dict": "{}", "binop": "1 + 2", "member": "math.pi", "lambda": "lambda: 1",
+    "double-sign": "--1", "sign-of-signed-float": "- -1.5", "plus-minus": "+-1", "neg-bool": "-True", "invert": "~5", "neg-str": '-"s"', "huge-float": "-1e999",
     "bytes": 'b"x"', "complex": "2j", "ellipsis": "...", "set": "{1}", "index": "TABLE[0]", "conditional": "1 if CONST else 2", "fstring": 'f"{CONST}"',
 }
 CLASS = {
